@@ -857,6 +857,7 @@ v('C15', 'fire', S, '    theta = gyro_increment + coning\n', '    gap = dt[:, 0]
 v('C17 C16 C19', 'fire', T, "    return Rotation.from_euler('xyz', rph, degrees=True).as_matrix()",
   "    rph = np.asarray(rph, dtype=float)\n    if len(rph) != 3:\n        rph = rph.T\n    return Rotation.from_euler('xyz', rph.T if rph.ndim == 2 else rph, degrees=True).as_matrix()",
   'round-7 seed C17 (the dispatch only): single triple told from a stack by its length')
+v('C16', 'fire', T, '    ss[m] = 1 - c[m] * c[m]\n', '    ss[m] = s[m] * s[m]\n', 'round-7 seed C16: stale sine in the arccos branch')
 v('C18', 'fire', T, '    return all(col in data for col in RPH_COLS)', '    return set(RPH_COLS).issubset(data)', 'round-7 seed C18: subset test iterates the values of a Series')
 v('C18', 'silent', T, '    return all(col in data for col in RPH_COLS)', '    return set(RPH_COLS).issubset(data.keys())', 'subset test over the labels')
 
